@@ -356,7 +356,7 @@ _STAGE = lambda td: obj('Amp', type_def=const(td), type_variety=string(), p_max=
                         nf_model=NF_MODEL, nf_fit_coeff=const(None))
 _DUAL = obj('Amp', type_def=const('dual_stage'), type_variety=string(), p_max=real(), gain_flatmax=real(), gain_min=real(),
             dual_stage_model=obj('<ns>', preamp_variety=const('pre'), booster_variety=const('boost')))
-contract('gnpy.tools.json_io._update_dual_stage', props=['C04'],
+contract('gnpy.tools.json_io._update_dual_stage', props=['C04', 'C10'],
          params={'equipment': dct(Edfa=dct_k({'pre': _STAGE('variable_gain'), 'boost': _STAGE('fixed_gain'), 'dual': _DUAL}))},
          let={'d': "equipment['Edfa']['dual']", 'pre': "old(equipment['Edfa']['pre'])", 'boost': "old(equipment['Edfa']['boost'])",
               'gmin': "old(equipment['Edfa']['dual'].gain_min)"},
